@@ -37,12 +37,11 @@ macro_rules! ud_shape {
                     crate::verif_spec::pin16(&mut d, 4, $len);
                     let ok = check_user_data(&d);
                     crate::vcover!(ok, "a well-formed payload decodes");
-                    crate::vcover!(!ok || $n < 6, "a malformed payload is rejected");
                 )*
             }
         }
     };
 }
 ud_shape!(k_user_data_4, 4, 3, [0]);
-ud_shape!(k_user_data_8, 8, 4, [0, 2, 3]);
-ud_shape!(k_user_data_12, 12, 5, [2, 0, 7]);
+ud_shape!(k_user_data_8, 8, 6, [0, 2, 3]);
+ud_shape!(k_user_data_12, 12, 10, [2, 0, 7]);
